@@ -196,6 +196,51 @@ func c11Subjects() []c11Subject {
 				return c11Declare(c.Characteristic, h.truth)
 			}})
 	}
+	// subjects whose permission set is REPLACED after construction by another set of the same length, or edited in
+	// place: the permissions in force are the current ones (read permission is not taken away in these: a value stored
+	// while it was there would stay, which is the application's business)
+	type change struct {
+		name         string
+		first, later []string
+		inPlace      bool
+	}
+	for _, ch := range []change{
+		{"[pr,pw]→[pr,ev]", []string{"pr", "pw"}, []string{"pr", "ev"}, false},
+		{"[pw,ev]→[pw,hd]", []string{"pw", "ev"}, []string{"pw", "hd"}, false},
+		{"[pr,pw,ev]→[pr,hd,ev]", []string{"pr", "pw", "ev"}, []string{"pr", "hd", "ev"}, false},
+		{"[pr,pw] edited in place to [pr,ev]", []string{"pr", "pw"}, []string{"pr", "ev"}, true},
+		{"[pw]→[pr]", []string{"pw"}, []string{"pr"}, false},
+	} {
+		ch := ch
+		apply := func(c *characteristic.Characteristic) *characteristic.Characteristic {
+			if ch.inPlace {
+				copy(c.Perms, ch.later)
+			} else {
+				c.Perms = append([]string{}, ch.later...)
+			}
+			return c11Declare(c, ch.later)
+		}
+		out = append(out,
+			c11Subject{"generic.Bool " + ch.name, func() *characteristic.Characteristic {
+				c := characteristic.NewBool("E021")
+				c.Perms = append([]string{}, ch.first...)
+				c.SetValue(true)
+				c.IsReadable()
+				c.IsWritable()
+				c.IsObservable()
+				return apply(c.Characteristic)
+			}},
+			c11Subject{"generic.Int " + ch.name, func() *characteristic.Characteristic {
+				c := characteristic.NewInt("E022")
+				c.Format = characteristic.FormatUInt8
+				c.Perms = append([]string{}, ch.first...)
+				c.SetValue(10)
+				c.IsReadable()
+				c.IsWritable()
+				c.IsObservable()
+				return apply(c.Characteristic)
+			}})
+	}
 	return out
 }
 
